@@ -15,9 +15,9 @@ class Unsupported(Exception):
     pass
 
 
-VARIANT_INDEX = {"None": 0, "Some": 1, "Ok": 0, "Err": 1, "Ready": 0, "Pending": 1, "SlotPending": 0, "SlotReady": 1}
+VARIANT_INDEX = {"None": 0, "Some": 1, "Ok": 0, "Err": 1, "Ready": 0, "Pending": 1, "SlotPending": 0, "SlotReady": 1, "Initializing": 0, "RvReady": 1}
 # variants of a crate enum whose names clash with a std enum tracked above (future_deque: Slot::{Pending, Ready})
-VARIANT_ALIAS = {"SlotPending": "Pending", "SlotReady": "Ready"}
+VARIANT_ALIAS = {"SlotPending": "Pending", "SlotReady": "Ready", "RvReady": "Ready"}
 ORDERINGS = ("Relaxed", "Release", "Acquire", "AcqRel", "SeqCst")
 STATE_DOMAIN = list(range(8))     # values an atomic byte read may return in the model (asserted < 8)
 
@@ -53,6 +53,10 @@ def freeze(v):
 
 
 RE_LOCAL = re.compile(r"_\d+")
+
+
+def _balanced(t):
+    return t.count("(") == t.count(")")
 _LIVE_CACHE = {}
 
 
@@ -211,6 +215,8 @@ class Interp:
     def place_read(self, fr, p):
         p = p.strip()
         m = re.match(r"^\(\((.+) as (\w+)\)\.(\d+): .*\)$", p)
+        if m and not _balanced(m.group(1)):
+            m = None            # nested projection: handled by the generic case at the end
         if m:
             v = self.deref_alias(fr, self.place_read(fr, m.group(1)))
             if isinstance(v, tuple) and v and v[0] == "ENUM":
@@ -238,7 +244,34 @@ class Interp:
             v = self.deref_alias(fr, fr.env.get(m.group(1)))
             if isinstance(v, tuple) and v and v[0] == "OBJ":
                 return self.obj_field(fr, v[1], m.group(2))
+            if isinstance(v, tuple) and v and v[0] == "TUPLE":
+                return v[1 + int(m.group(2))] if len(v) > 1 + int(m.group(2)) else None
             return None
+        # generic nested projection "(BASE.N: TYPE)" with BASE = "(PLACE as Variant)" or a place
+        if p.startswith("(") and p.endswith(")"):
+            depth, cut = 0, None
+            for i in range(1, len(p) - 1):
+                c = p[i]
+                if c in "(<[{":
+                    depth += 1
+                elif c in ")]}" or (c == ">" and p[i - 1] != "-"):
+                    depth -= 1
+                elif c == ":" and depth == 0 and p[i + 1:i + 2] == " ":
+                    cut = i
+                    break
+            if cut is not None:
+                mm = re.match(r"^(.*)\.(\d+)$", p[1:cut])
+                if mm:
+                    base, idx = mm.group(1), int(mm.group(2))
+                    mv = re.match(r"^\((.+) as (\w+)\)$", base)
+                    if mv:
+                        v = self.deref_alias(fr, self.place_read(fr, mv.group(1)))
+                        if isinstance(v, tuple) and v and v[0] == "ENUM" and (v[1] == mv.group(2) or VARIANT_ALIAS.get(v[1]) == mv.group(2)):
+                            return v[2 + idx] if len(v) > 2 + idx else None
+                        return None
+                    v = self.deref_alias(fr, self.place_read(fr, base))
+                    if isinstance(v, tuple) and v and v[0] == "TUPLE":
+                        return v[1 + idx] if len(v) > 1 + idx else None
         return None
 
     def obj_field(self, fr, name, idx):
@@ -515,7 +548,11 @@ class Interp:
             if need is None or len(ints) != need[0] or len(ords) != need[1]:
                 raise Unsupported("atomic %s with untracked operands %r in %s @%s" % (op, vals, fr.func.short(), line))
             loc = self.cfg.atomic_loc_of(fr, args[0])
-            return ("VIS", stack, dict(kind="ATOMIC", op=op.replace("_weak", ""), ints=ints, ords=ords, loc=loc, line=line, next_bb=ret_bb, dst=dst))
+            d = dict(kind="ATOMIC", op=op.replace("_weak", ""), ints=ints, ords=ords, loc=loc, line=line, next_bb=ret_bb, dst=dst)
+            dom = getattr(self.cfg, "atomic_domain", None)
+            if dom is not None and dom(loc) is not None:
+                d["domain"] = list(dom(loc))      # values outside it are flagged "out of the modelled range" by the encoder
+            return ("VIS", stack, d)
         if re.search(r"(^|::)fence$", callee):
             v = vals[0]
             if not (isinstance(v, tuple) and v[0] == "ORD"):
@@ -574,7 +611,7 @@ class Interp:
             env = {}
             for p, x in zip(fn.params, vals):
                 # a reference to a caller-local task context is passed by value (contexts are immutable tokens)
-                if isinstance(x, tuple) and x and x[0] == "REF" and isinstance(fr.env.get(x[1]), tuple) and fr.env[x[1]] and fr.env[x[1]][0] in ("CONTEXT", "MCONTEXT"):
+                if isinstance(x, tuple) and x and x[0] == "REF" and isinstance(fr.env.get(x[1]), tuple) and fr.env[x[1]] and fr.env[x[1]][0] in ("CONTEXT", "MCONTEXT", "TUPLE"):
                     x = fr.env[x[1]]
                 env[p] = x
             stack.append(Frame(fn, env, "bb0", dst, ret_bb))
@@ -612,6 +649,8 @@ def result_domain(op):
     if op["kind"] == "ATOMIC":
         if op["op"] == "store":
             return [None]
+        if op.get("domain") is not None and op["op"] != "compare_exchange":
+            return list(op["domain"])
         if op["op"] == "compare_exchange":
             exp = op["ints"][0]
             return [("ENUM", "Ok", exp)] + [("ENUM", "Err", v) for v in STATE_DOMAIN if v != exp]
